@@ -329,6 +329,16 @@ func TestVerifC12Hostile(t *testing.T) {
 				if len(m.Data) > 0 && m.Data[0] == 'R' {
 					return ValidationReject
 				}
+				if len(m.Data) > 1 && m.Data[0] == 'S' {
+					// slow: the verdict arrives after whatever the sender does next (it ignores its context on purpose)
+					time.Sleep(150 * time.Millisecond)
+					if m.Data[1] == 'R' {
+						return ValidationReject
+					}
+					if m.Data[1] == 'I' {
+						return ValidationIgnore
+					}
+				}
 				return ValidationAccept
 			})
 			var topicOpts []TopicOpt
@@ -447,6 +457,44 @@ func TestVerifC12Hostile(t *testing.T) {
 			nIn := c.Range(6, 24)
 			for i := 0; i < nIn && !c.Violated(); i++ {
 				p := bad[c.Intn(nBad)]
+				if !unknown[p] && c.Chance(0.12) {
+					// a message that sits in a slow validator while its sender tears the connection (or just its streams)
+					// down; the verdict (accept / reject / ignore) arrives when the sender is gone, then the sender returns
+					bseq++
+					verdict := []string{"A", "R", "I"}[c.Intn(3)]
+					how := []string{"disconnect", "reset_streams", "stay"}[c.Intn(3)]
+					data := fmt.Sprintf("S%s-vanish-%d", verdict, bseq)
+					what := fmt.Sprintf("vanish[%s,%s] from %s (%s)", verdict, how, p.name, p.protos[0])
+					c.Crumb("%s", what)
+					p.Send(me, vMsgRPC(vSignedMsg(p.key, "t", vSeqno(bseq), []byte(data))))
+					vSettle(time.Duration(c.Range(0, 100)) * time.Millisecond)
+					switch how {
+					case "disconnect":
+						r.n.Disconnect(me, p.ID())
+						p.ForgetStreams()
+					case "reset_streams":
+						p.CloseOut(me, true)
+						p.CloseIn(me, true)
+					}
+					vSettle(400 * time.Millisecond)
+					classes["vanish:"+how+"/"+verdict]++
+					if !probe(what) {
+						break
+					}
+					if how == "disconnect" {
+						if err := r.Attach(p, c.Chance(0.5)); err != nil {
+							fail(map[string]string{"kind": "cannot_reconnect", "input": "vanish"}, "cannot reconnect after %s: %v", what, err)
+							break
+						}
+					} else if how == "reset_streams" {
+						vSettle(300 * time.Millisecond)
+						if _, err := p.Open(me); err != nil {
+							fail(map[string]string{"kind": "cannot_reopen_stream", "input": "vanish"}, "cannot open a new stream after %s: %v", what, err)
+							break
+						}
+					}
+					continue
+				}
 				if c.Chance(0.75) {
 					rpc, kinds := c12RPC(c, r.n, p, me, &bseq)
 					b, err := rpc.Marshal()
